@@ -24,7 +24,7 @@ MPT_STRUCT(parseIterator) {
 	
 	MPT_INTERFACE(convertable) *conv_ptr;
 	
-	char *val, *end, *restore, save;
+	char *val, *end, *restore, *next, save;
 };
 /* iterator interface */
 static int parseConvertElement(MPT_INTERFACE(convertable) *conv, MPT_TYPE(type) type, void *dest)
@@ -41,6 +41,7 @@ static int parseConvertElement(MPT_INTERFACE(convertable) *conv, MPT_TYPE(type) 
 	if (it->restore) {
 		*it->restore = it->save;
 	}
+	it->next = 0;
 	/* only white space left is no element */
 	vis = txt;
 	while (isspace(*vis)) ++vis;
@@ -94,8 +95,10 @@ static int parseConvertElement(MPT_INTERFACE(convertable) *conv, MPT_TYPE(type) 
 		if (dest) {
 			((const char **) dest)[0] = key;
 		}
-		/* terminate key at its end, a consumed separator is skipped by advance */
+		/* terminate key at its end, advance continues behind the consumed
+		 * text (white space and separator behind the key) */
 		len = (key + klen) - it->val;
+		it->next = (txt > key + klen) ? (char *) txt : 0;
 	}
 	/* convert to target type */
 	else if ((len = mpt_convert_string(it->val, type, 0)) < 0) {
@@ -152,9 +155,10 @@ static int parseAdvance(MPT_INTERFACE(iterator) *ptr)
 		return 0;
 	}
 	if (it->restore) {
-		it->val = it->restore + 1;
+		it->val = it->next ? it->next : it->restore + 1;
 		*it->restore = it->save;
 		it->restore = 0;
+		it->next = 0;
 		/* trailing white space is no further element */
 		for (next = it->val; next < it->end && isspace(*next); ++next);
 		if (next >= it->end) {
@@ -179,6 +183,7 @@ static int parseReset(MPT_INTERFACE(iterator) *ptr)
 		*it->restore = it->save;
 		it->restore = 0;
 	}
+	it->next = 0;
 	/* value after separator config */
 	if ((it->val = strchr((void *) (it + 1), 0))) {
 		++it->val;
@@ -332,6 +337,7 @@ extern MPT_INTERFACE(metatype) *mpt_iterator_string(const char *val, const char 
 	it->val = dest;
 	it->end = dest + vlen;
 	it->restore = 0;
+	it->next = 0;
 	it->save = 0;
 	
 	return &it->_mt;
